@@ -3,6 +3,7 @@ CONSTANTS Vars <- VarsXYZ
  Kinds <- KindsC16
  LitIdx <- LitsAll
  Imports <- NoImports
+ Shape = "free"
  Emit = TRUE
 SPECIFICATION Spec
 INVARIANTS AlgoRefinesPython Fresh WellFormedHeap EmitCase
